@@ -76,7 +76,7 @@ PROPS = {
     },
     "C08": {
         "lean": ["FsnVerif.Props.C08"],
-        "lean_support": ["FsnVerif.Proofs.InotifyLemmas", "FsnVerif.Proofs.ALLemmas", "FsnVerif.Proofs.DecodeLemmas", "FsnVerif.Proofs.PathLemmas", "FsnVerif.Proofs.PathShape", "FsnVerif.Model.Path"],
+        "lean_support": ["FsnVerif.Proofs.InotifyLemmas", "FsnVerif.Proofs.ALLemmas", "FsnVerif.Proofs.DecodeLemmas", "FsnVerif.Proofs.PathLemmas", "FsnVerif.Proofs.PathShape", "FsnVerif.Proofs.TrimLemmas", "FsnVerif.Model.Path"],
         "stages": [{"name": "inject", "cmd": "inject", "what": "C08", "sessions": True},
                    {"name": "live", "cmd": "live", "what": "C08", "sessions": True},
                    {"name": "path", "cmd": "pure", "what": "path"}],
